@@ -46,6 +46,7 @@ SealAgrees == stage = 2 => K!Seal(rk, IV, AAD, PT, 2) = G!Seal(rk, IV, AAD, PT, 
 RoundTrip == stage = 2 => K!Open(rk, IV, AAD, G!Seal(rk, IV, AAD, PT, 2), 2) = [ok |-> TRUE, pt |-> PT]
 \* the zero-aad shortcut used for lengths no materialised string can reach is the definition on all-zero aad
 ZeroAadLemma == stage = 2 => G!SealZeroAad(rk, IV, al, PT, 2) = G!Seal(rk, IV, [i \in 1..al |-> 0], PT, 2)
+ZeroIvLemma == stage = 2 => G!SealZeroIv(rk, ivl, AAD, PT, 2) = G!Seal(rk, [i \in 1..ivl |-> 0], AAD, PT, 2)
 \* every single-symbol modification (ciphertext and tag): same verdict and plaintext as the definition
 OpenAgrees ==
   (stage = 2 /\ tl <= 12) =>
